@@ -2,6 +2,7 @@ package props
 
 import (
 	"fmt"
+	"go/token"
 	"sort"
 	"strings"
 
@@ -442,6 +443,13 @@ func c12(r *core.Run) {
 	}
 	r.Floor("C12.G1", "data deletes reachable from collectGarbage", nd, 2)
 	gcDirtyRecheck(r, "C12.G2", "a file pinned or re-used after the candidates were gathered is still collected — its pin entries and chunk data are deleted")
+	dirtyLogRule(r, "C12.G3")
+	// pinning a cached file takes it off the gc index: that bookkeeping must not be a
+	// read-modify-write through the batch from the per-chunk loop (N chunks of one root would
+	// each stage old-1, the entry survives and the fully pinned file stays collectable)
+	rmwRule(r, "C12.B1", func(helper, field string) bool {
+		return field == "gcIndex" && strings.HasSuffix(helper, ".setPin")
+	})
 
 	// W2 uploads never become collectable
 	ur := lsReach(w, pu)
@@ -658,6 +666,29 @@ func loopContains(fn *ssa.Function, header, b *ssa.BasicBlock) bool {
 func c13(r *core.Run) {
 	w := r.W
 	funcs := w.PkgFuncs(lsPkg)
+	rmwRule(r, "C13.B1", nil)
+	// W1 gcSize writers
+	allowed := map[string]bool{lsPkg + ".(*DB).incGCSizeInBatch": true, lsPkg + ".(*DB).collectGarbage": true, lsPkg + ".New": true}
+	n := 0
+	for _, ic := range lsIndexCalls(funcs) {
+		if ic.field == "gcSize" && idxWriteMethods[ic.method] {
+			n++
+			name := core.FuncName(rootFn(ic.fn))
+			r.Check("C13.W1", lsKey("C13.W1", ic.fn, "gcSize."+ic.method), ic.in.Pos(), allowed[name],
+				"the persisted cached-chunk counter is written only by incGCSizeInBatch, collectGarbage and the constructor", name+" writes gcSize")
+		}
+	}
+	r.Floor("C13.W1", "writes of gcSize", n, 3)
+	gcDirtyRecheck(r, "C13.G2", "a candidate whose gc-index entry was re-keyed by a concurrent access is deleted under its stale key while its chunks are subtracted — the persisted counter drifts from the sum of the per-file counts")
+	dirtyLogRule(r, "C13.G3")
+}
+
+// rmwRule: the batch read-modify-write rule (see Meta of C13). only == nil: every helper and
+// index (C13, with floors); otherwise only the summaries accepted by the filter, without
+// floors and with a positive obligation when none exists.
+func rmwRule(r *core.Run, rule string, only func(helper, field string) bool) {
+	w := r.W
+	funcs := w.PkgFuncs(lsPkg)
 	// summaries, propagated to callers that pass their own parameter on
 	sum := map[*ssa.Function][]rmwSummary{}
 	for _, fn := range funcs {
@@ -700,7 +731,10 @@ func c13(r *core.Run) {
 	for _, s := range sum {
 		nsum += len(s)
 	}
-	r.Floor("C13.B1", "read-modify-write-through-batch summaries (index keyed by a parameter)", nsum, 3)
+	if only == nil {
+		r.Floor(rule, "read-modify-write-through-batch summaries (index keyed by a parameter)", nsum, 3)
+	}
+	nsel := 0
 	// call sites inside loops with loop-invariant key
 	reported := map[string]bool{}
 	nsites := 0
@@ -721,38 +755,33 @@ func c13(r *core.Run) {
 				return
 			}
 			for _, s := range ss {
+				helper := s.put.Parent()
+				if only != nil && !only(core.FuncName(helper), s.field) {
+					continue
+				}
+				nsel++
 				nsites++
 				arg := c.Call.Args[s.param]
 				inv := loopInvariant(fn, arg, h, 0)
-				helper := s.put.Parent()
-				key := core.Key("C13.B1", helper, s.field+" RMW through batch, loop in "+strings.TrimPrefix(core.FuncName(fn), lsPkg+"."))
+				key := core.Key(rule, helper, s.field+" RMW through batch, loop in "+strings.TrimPrefix(core.FuncName(fn), lsPkg+"."))
 				if reported[key] {
 					continue
 				}
 				reported[key] = true
 				r.Saw(core.FuncName(helper))
-				r.Check("C13.B1", key, s.put.Pos(), !inv,
+				r.Check(rule, key, s.put.Pos(), !inv,
 					"an index entry is read-modified-written through the batch at most once per batched operation",
 					fmt.Sprintf("%s reads %s and stages the modified entry in the batch; %s calls it from a loop (%s) with the same key every iteration: the reads never see the staged write, so N chunks change the entry once while the cached-chunk counter changes N times",
 						core.FuncName(helper), s.field, core.FuncName(fn), w.Pos(c.Pos())))
 			}
 		})
 	}
-	r.Floor("C13.B1", "loop call sites of RMW helpers", nsites, 3)
-
-	// W1 gcSize writers
-	allowed := map[string]bool{lsPkg + ".(*DB).incGCSizeInBatch": true, lsPkg + ".(*DB).collectGarbage": true, lsPkg + ".New": true}
-	n := 0
-	for _, ic := range lsIndexCalls(funcs) {
-		if ic.field == "gcSize" && idxWriteMethods[ic.method] {
-			n++
-			name := core.FuncName(rootFn(ic.fn))
-			r.Check("C13.W1", lsKey("C13.W1", ic.fn, "gcSize."+ic.method), ic.in.Pos(), allowed[name],
-				"the persisted cached-chunk counter is written only by incGCSizeInBatch, collectGarbage and the constructor", name+" writes gcSize")
-		}
+	if only == nil {
+		r.Floor(rule, "loop call sites of RMW helpers", nsites, 3)
+	} else if nsel == 0 {
+		r.Check(rule, rule+"@"+lsPkg+"#no selected index entry is read-modified-written through the batch in a loop", token.NoPos, true,
+			"the selected bookkeeping entry is not read-modified-written through the batch from a loop", "")
 	}
-	r.Floor("C13.W1", "writes of gcSize", n, 3)
-	gcDirtyRecheck(r, "C13.G2", "a candidate whose gc-index entry was re-keyed by a concurrent access is deleted under its stale key while its chunks are subtracted — the persisted counter drifts from the sum of the per-file counts")
 }
 
 func c14(r *core.Run) {
